@@ -10,8 +10,10 @@
    For both classes one round reaches the fixpoint at the byte level: the re-encoding is idempotent (C02_canon_idempotent) and
    re-writing the second read reproduces the bytes of the first re-write exactly (C02_rewrite_stable).
    Streams the strict reader accepts only up to an error, mid-document starts, and global elements inside masters of unknown
-   size are covered by the correspondence run (read → write → read on mutated and hand-crafted streams). *)
-From Ebml Require Import Base Tools Spec Writer Reader Pure Encode Proofs.Tactics Proofs.WriterProofs Proofs.PureProofs Proofs.RoundTrip Proofs.RoundTripKnown Proofs.WriteEnc Proofs.WriteEncG Proofs.Fixpoint Proofs.FixpointKnown Proofs.Partial Proofs.CutExists Proofs.Snapshots Proofs.FixpointCut.
+   size are covered by the correspondence run (read → write → read on mutated and hand-crafted streams).
+   Each fixpoint theorem has a sibling [..._strong] that determines BOTH outcome lists (items with offsets, then the clean end
+   ONone: both reads are error-free), where the original compares them only through [out_tag]. *)
+From Ebml Require Import Base Tools Spec Writer Reader Pure Encode Proofs.Tactics Proofs.WriterProofs Proofs.PureProofs Proofs.RoundTrip Proofs.RoundTripKnown Proofs.WriteEnc Proofs.WriteEncG Proofs.Fixpoint Proofs.FixpointKnown Proofs.Partial Proofs.CutExists Proofs.Snapshots Proofs.FixpointCut Proofs.BufferSimErr Proofs.AuditRoundTrip.
 
 (* [canon f]: the same tags in the writer's default encoding; [sized c t]: its sizes stay below 2^56-1 and the reader's limit.
    The writer accepts every tag the reader emitted (in particular everything the reader accepts as hierarchy-valid), emits the
@@ -24,6 +26,30 @@ Theorem C02_fixpoint_partial : forall c f, strict c -> c_buffered c = [] -> c_em
   snd written = enc_forest (map canon f) /\
   map out_tag (p_run c (snd written) [RAll]) = map out_tag first.
 Proof. exact read_write_read. Qed.
+
+(* [out_tag] maps ONone and every error / budget outcome alike to None, so "the second read yields the tags of the first" above does
+   not by itself say that either read is error-free.  On the outcome lists themselves (same hypotheses): the first read is
+   EXACTLY the items of the document - tags with the offsets of their first bytes - followed by the clean end ONone; every write
+   call succeeds and the bytes written are the canonical encoding; the second read is EXACTLY the items of the canonical
+   document (same tags; offsets those of the re-written bytes) followed by the clean end ONone. *)
+Theorem C02_fixpoint_partial_strong : forall c f, strict c -> c_buffered c = [] -> c_emit_eof c = true -> Forall (conf c []) f ->
+  Forall (sized c) (map canon f) ->
+  let first := p_run c (enc_forest f) [RAll] in
+  let written := run_writer (c_sp c) (map default_write (run_tags first)) [] in
+  let second := p_run c (snd written) [RAll] in
+  Forall (fun r => fst r = WOk) (fst written) /\
+  snd written = enc_forest (map canon f) /\
+  first = items_forest 0 f ++ [ONone] /\
+  second = items_forest 0 (map canon f) ++ [ONone] /\
+  map out_tag second = map out_tag first.
+Proof. exact read_write_read_strong. Qed.
+
+(* the items of a document are items (none of them is an error or budget outcome), and re-encoding keeps the tags *)
+Theorem C02_items_are_items : forall f off, Forall is_item (items_forest off f).
+Proof. exact items_forest_are_items. Qed.
+
+Theorem C02_canon_same_tags : forall f, tags_forest (map canon f) = tags_forest f.
+Proof. exact canon_tags_forest. Qed.
 
 (* decoded values are always in the range the encoders invert: the decoders' results re-encode to payloads that decode to
    the same value (with C16_writer_uint / _sint / _float) *)
@@ -75,6 +101,19 @@ Example C02_ex_run :
   map out_tag (p_run C02_cfg (snd written) [RAll]) = map out_tag first.
 Proof. vm_compute. repeat split; reflexivity. Qed.
 
+(* both outcome lists: items with offsets (those of the original 25 bytes, then those of the 21 re-written bytes), then ONone *)
+Example C02_ex_run_strong :
+  let first := p_run C02_cfg (enc_forest C02_doc) [RAll] in
+  let written := run_writer C02_sp (map default_write (run_tags first)) [] in
+  first = [OItem (TStart 129) 0; OItem (TElem 16641 (VU 5)) 9; OItem (TElem 16644 (VF 4609434218613702656)) 22;
+           OItem (TElem 16645 (VI 0)) 29; OItem (TEnd 129) 0; ONone] /\
+  p_run C02_cfg (snd written) [RAll] =
+          [OItem (TStart 129) 0; OItem (TElem 16641 (VU 5)) 2; OItem (TElem 16644 (VF 4609434218613702656)) 6;
+           OItem (TElem 16645 (VI 0)) 17; OItem (TEnd 129) 0; ONone] /\
+  first = items_forest 0 C02_doc ++ [ONone] /\
+  p_run C02_cfg (snd written) [RAll] = items_forest 0 (map canon C02_doc) ++ [ONone].
+Proof. vm_compute. repeat split; reflexivity. Qed.
+
 (* ---- documents cut on a tag boundary.  [snapshot_doc L f] (Proofs/Partial.v, Proofs/Snapshots.v): the masters open at the
    cut, outermost first — each with the complete sibling trees in front of it, its id, size-field width and DECLARED size,
    which may exceed the bytes that are there — and the complete trees [f] at the innermost level.  The strict reader reads
@@ -90,6 +129,22 @@ Theorem C02_fixpoint_cut_partial : forall c L f, strict c -> c_buffered c = [] -
   snd written = enc_forest (map canon (close_levels L f)) /\
   map out_tag (p_run c (snd written) [RAll]) = map out_tag first.
 Proof. exact read_write_read_cut. Qed.
+
+(* on the outcome lists (same hypotheses): the first read is exactly [out_tdoc (snapshot_doc L f)] (Proofs/Partial.v: the items
+   of everything complete with their offsets, the Ends of the open masters, ONone), which consists of items followed by the clean
+   end ONone; the second read is exactly the items of the canonical closed document followed by ONone *)
+Theorem C02_fixpoint_cut_partial_strong : forall c L f, strict c -> c_buffered c = [] -> c_emit_eof c = true ->
+  conf_tdoc c (snapshot_doc L f) -> Forall (sized c) (map canon (close_levels L f)) ->
+  let first := p_run c (enc_tdoc (snapshot_doc L f)) [RAll] in
+  let written := run_writer (c_sp c) (map default_write (run_tags first)) [] in
+  let second := p_run c (snd written) [RAll] in
+  Forall (fun r => fst r = WOk) (fst written) /\
+  snd written = enc_forest (map canon (close_levels L f)) /\
+  first = out_tdoc (snapshot_doc L f) /\
+  (exists items, first = items ++ [ONone] /\ Forall is_item items) /\
+  second = items_forest 0 (map canon (close_levels L f)) ++ [ONone] /\
+  map out_tag second = map out_tag first.
+Proof. exact read_write_read_cut_strong. Qed.
 
 (* the tags of both reads: everything complete, then the Ends of the open masters innermost first, then the end of input *)
 Theorem C02_cut_tags : forall c L f, strict c -> c_buffered c = [] -> c_emit_eof c = true -> conf_tdoc c (snapshot_doc L f) ->
@@ -107,6 +162,23 @@ Theorem C02_fixpoint_prefix_partial : forall c f k, strict c -> c_buffered c = [
   snd written = enc_forest (map canon closed) /\
   map out_tag (p_run c (snd written) [RAll]) = map out_tag first.
 Proof. exact read_write_read_prefix. Qed.
+
+(* on the outcome lists (same hypotheses): the first read is exactly [out_tdoc (cut_doc f k)], items followed by the clean end
+   ONone; the second read is exactly the items of the canonical closed document followed by ONone *)
+Theorem C02_fixpoint_prefix_partial_strong : forall c f k, strict c -> c_buffered c = [] -> c_emit_eof c = true ->
+  Forall (conf c []) f -> (k <= length (enc_forest f))%nat -> td_tail (cut_doc f k) = CutBoundary ->
+  let closed := close_levels (td_levels (cut_doc f k)) (td_f (cut_doc f k)) in
+  Forall (sized c) (map canon closed) ->
+  let first := p_run c (firstn k (enc_forest f)) [RAll] in
+  let written := run_writer (c_sp c) (map default_write (run_tags first)) [] in
+  let second := p_run c (snd written) [RAll] in
+  Forall (fun r => fst r = WOk) (fst written) /\
+  snd written = enc_forest (map canon closed) /\
+  first = out_tdoc (cut_doc f k) /\
+  (exists items, first = items ++ [ONone] /\ Forall is_item items) /\
+  second = items_forest 0 (map canon closed) ++ [ONone] /\
+  map out_tag second = map out_tag first.
+Proof. exact read_write_read_prefix_strong. Qed.
 
 Definition C02_cut_sp : spec :=
   [ {| e_id := 129; e_ty := DMaster; e_path := [] |}; {| e_id := 16643; e_ty := DMaster; e_path := [PId 129] |};
@@ -178,6 +250,20 @@ Theorem C02_fixpoint_known_partial : forall c f, strict c -> c_buffered c = [] -
   snd written = enc_forest (map canon f) /\
   map out_tag (p_run c (snd written) [RAll]) = map out_tag first.
 Proof. exact read_write_read_known. Qed.
+
+(* on the outcome lists (same hypotheses): both reads are exactly the items of the document / of the canonical document followed
+   by the clean end ONone *)
+Theorem C02_fixpoint_known_partial_strong : forall c f, strict c -> c_buffered c = [] -> c_emit_eof c = true ->
+  Forall (kconf c []) f -> dstart c f -> Forall (sized c) (map canon f) ->
+  let first := p_run c (enc_forest f) [RAll] in
+  let written := run_writer (c_sp c) (map default_write (run_tags first)) [] in
+  let second := p_run c (snd written) [RAll] in
+  Forall (fun r => fst r = WOk) (fst written) /\
+  snd written = enc_forest (map canon f) /\
+  first = items_forest 0 f ++ [ONone] /\
+  second = items_forest 0 (map canon f) ++ [ONone] /\
+  map out_tag second = map out_tag first.
+Proof. exact read_write_read_known_strong. Qed.
 
 (* the canonical re-encoding is idempotent: payloads and size widths depend on the values and their lengths only *)
 Theorem C02_canon_idempotent : forall t, canon (canon t) = canon t.
